@@ -173,6 +173,8 @@ pub fn entrait_for_mod(attr: &EntraitFnAttr, input_mod: InputMod) -> syn::Result
             #impl_block
         }
 
+        // (a trait that is only named through the module leaves this unused)
+        #[allow(unused_imports)]
         #trait_vis use #mod_ident::#trait_ident;
     })
 }
